@@ -11,6 +11,12 @@
            1 n          cancel input node n
            2            call the CancelFunc returned by ConflatedContext
            3 key        Value(key) of the returned context
+           4            nothing
+           9 k j1..jk <base op>   the base op (0 | 1 n | 2 | 4) during whose processing input nodes j1..jk were cancelled by
+                        scripted hook contexts, somewhere inside the library or one of its hook goroutines: the model performs
+                        the base op (the whole library call for 0), then the cancellations, then runs to quiescence
+     a node whose parent field is -1 is a context that can never be cancelled (a root that no operation cancels; it is not
+     a probe, so registrations on it are not counted in `live`)
      outs: ops 0 5 1 2 : cancelled calls live waiters idk
                           cancelled = result.Err() != nil (0 for ChainAfterFunc), calls = number of calls of f,
                           live = registrations still pending on the probe contexts (probe = 1), waiters = live waiter
@@ -26,7 +32,7 @@ type mach =
   | MComb of nat option * nat option list * C.bst
   | MConf of nat list * C.fstate
 
-type cst = { probe : bool; nenv : nat; nenv_i : int; m : mach; constructed : bool }
+type cst = { probe : bool; nenv : nat; nenv_i : int; m : mach; constructed : bool; never : int list }
 
 let fuel = nat_of_int 4000
 
@@ -43,11 +49,15 @@ module CtxM = struct
           if k = 0 then (L.rev acc, l)
           else match l with
             | p :: key :: v :: tl ->
-                let e = { C.eparent = (if p = 0 then None else Some (nat_of_int (p - 1)));
+                let e = { C.eparent = (if p <= 0 then None else Some (nat_of_int (p - 1)));
                           C.ekv = (if key = 0 then None else Some (nat_of_int key, nat_of_int v)) } in
                 take_env (k - 1) tl (e :: acc)
             | _ -> failwith "ctx: bad env" in
-        let (env, rest) = take_env nenv rest [] in
+        let (env, rest') = take_env nenv rest [] in
+        let never =
+          let rec go k l acc = if k = nenv then acc else (match l with p :: _ :: _ :: tl -> go (k + 1) tl (if p < 0 then k :: acc else acc) | _ -> acc) in
+          go 0 rest [] in
+        let rest = rest' in
         let (pre, args) = match rest with
           | npre :: tl ->
               let rec take k l acc = if k = 0 then (L.rev acc, l) else (match l with x :: tl -> take (k - 1) tl (x :: acc) | [] -> failwith "ctx: bad pre") in
@@ -60,7 +70,7 @@ module CtxM = struct
           | 1, p :: n :: os when L.length os = n -> MComb (opt p, L.map opt os, C.combine_init ns)
           | 2, n :: is when L.length is = n -> MConf (L.map nat_of_int is, C.confl_init ns)
           | _ -> failwith "ctx: bad args" in
-        { probe = probe <> 0; nenv = nat_of_int nenv; nenv_i = nenv; m; constructed = false }
+        { probe = probe <> 0; nenv = nat_of_int nenv; nenv_i = nenv; m; constructed = false; never }
     | _ -> failwith "ctx: bad cfg"
 
   let settle (s : st) : st =
@@ -100,7 +110,8 @@ module CtxM = struct
     let cancelled = match result s with Some r -> if C.is_canc w.C.nodes r then 1 else 0 | None -> 0 in
     let live =
       if not s.probe then 0
-      else L.length (L.filter (fun r -> r.C.rst = C.Pending && int_of_nat r.C.rnode < s.nenv_i) w.C.regs) in
+      else L.length (L.filter (fun r -> r.C.rst = C.Pending && int_of_nat r.C.rnode < s.nenv_i
+                                       && not (L.mem (int_of_nat r.C.rnode) s.never)) w.C.regs) in
     let waiters = match s.m with
       | MConf (_, f) -> (match f.C.fwait with C.WWait | C.WCancel -> 1 | _ -> 0)
       | _ -> 0 in
@@ -126,8 +137,32 @@ module CtxM = struct
           | MChain _ -> true in
         if fin then (s, false) else until_check (apply s C.LMain) i (budget - 1)
 
-  let step (s : st) (o : op) : st * out =
+  (* the library function's own goroutine runs until it has returned *)
+  let rec run_main (s : st) (budget : int) : st =
+    let fin = match s.m with
+      | MComb (_, _, b) -> (match C.combine_ret b with Some _ -> true | None -> false)
+      | MConf (_, f) -> (match f.C.fpcv with C.FRet | C.FPanic -> true | _ -> false)
+      | MChain (_, _, c) -> int_of_nat c.C.cpc >= 2 in
+    if fin || budget = 0 then s else run_main (apply s C.LMain) (budget - 1)
+
+  (* the effect of an operation, without running hook goroutines / waiter *)
+  let effect (s : st) (o : op) : st =
     match o with
+    | [0] -> run_main { s with constructed = true } 2000
+    | [1; n] -> apply s (C.LCancel (nat_of_int n))
+    | [2] -> apply s C.LUser
+    | [4] -> s
+    | l -> failwith ("ctx: bad base op " ^ show_ints l)
+
+  let rec step (s : st) (o : op) : st * out =
+    match o with
+    | [4] -> let s' = if s.constructed then settle s else s in (s', observe s')
+    | 9 :: k :: rest when L.length rest > k ->
+        let rec split i l acc = if i = 0 then (L.rev acc, l) else (match l with x :: tl -> split (i - 1) tl (x :: acc) | [] -> failwith "ctx: bad op 9") in
+        let (js, base) = split k rest [] in
+        let s1 = effect s base in
+        let s2 = L.fold_left (fun st j -> apply st (C.LCancel (nat_of_int j))) s1 js in
+        let s' = if s2.constructed then settle s2 else s2 in (s', observe s')
     | [0] -> let s' = settle { s with constructed = true } in (s', observe s')
     | [5; i; j] ->
         let (s1, at) = until_check s i 1000 in
